@@ -138,6 +138,19 @@ def tmpl_reload(r, lines):
     return steps
 
 
+def tmpl_change_multi(r, lines):
+    # change-multi: the limit changes; a selection made under another limit is dropped, under the same limit kept
+    steps = [[('select-all', None)]] if r.random() < 0.5 else [[('toggle', None), ('up', None)], [('toggle', None), ('up', None)], [('toggle', None)]]
+    steps.append([('change-multi', r.choice(['2', '0', '', '1', '3', '1000', '5']))])
+    for _ in range(r.randint(0, 3)):
+        steps.append([(r.choice(['toggle', 'toggle', 'select-all', 'toggle-all', 'up', 'down']), None)])
+    if r.random() < 0.5:
+        steps.append([('change-multi', r.choice(['', '2', '0', '4']))])
+        steps.append([(r.choice(['toggle', 'select-all', 'down']), None)])
+    steps.append([('accept', None)])
+    return steps
+
+
 def tmpl_accept_nth(r, lines):
     # --accept-nth with ranges whose bounds fall on, before and after the ends of the record
     steps = [[(r.choice(['down', 'up', 'last', 'first']), None)] for _ in range(r.randint(0, 2))]
@@ -326,7 +339,11 @@ def gen_session(r, tier, force=None):
             opts['tac'], opts['nosort'] = 0, 0
             if opts['multi'] < 3:
                 opts['multi'] = r.choice([3, 1000])
-        if tmpl in (tmpl_exclude_keeps, tmpl_selection, tmpl_pick_then_all, tmpl_kill_line, tmpl_empty_accept, tmpl_accept_nth, tmpl_reload):
+        if tmpl is tmpl_change_multi:
+            opts['noinput'], opts['tac'] = 0, 0
+            if len(lines) < 4:
+                lines += [r.choice(WORDS) for _ in range(5)]
+        if tmpl in (tmpl_exclude_keeps, tmpl_selection, tmpl_pick_then_all, tmpl_kill_line, tmpl_empty_accept, tmpl_accept_nth, tmpl_reload, tmpl_change_multi):
             # these templates pick items by their position in the unfiltered list
             opts['noinput'] = 0
             steps = tmpl(r, lines) + steps[:r.randint(0, 3)]
@@ -455,7 +472,7 @@ def drv_sessions(tier, seed, ctx):
     r = random.Random(seed * 104729 + 7)
     # every directed template is used by at least three sessions of any run
     tm = [tmpl_selection, tmpl_kill_ring, tmpl_burst, tmpl_track, tmpl_exclude_keeps, tmpl_hidden_input, tmpl_kill_line, tmpl_empty_accept,
-          tmpl_pick_then_all, tmpl_words_unicode, tmpl_accept_nth, tmpl_accept_nth, tmpl_reload]
+          tmpl_pick_then_all, tmpl_words_unicode, tmpl_accept_nth, tmpl_accept_nth, tmpl_reload, tmpl_change_multi]
     scs = [gen_session(r, tier, force=tm[i % len(tm)] if i < 3 * len(tm) else None) for i in range(max(n, 3 * len(tm) + 16))]
     notes = []
 
